@@ -73,6 +73,20 @@ def c10(tier, seed):
     return out
 
 
+def _protocol_stage(out, pid, thorough):
+    """End-to-end composition (Protocol.tla): epochs, rotation by puncturing, key-state theft, dictionary attack."""
+    res = run_tlc("MC_Protocol", "Protocol_q.cfg", workers=8, timeout=1800, tags=("PROTO",), tag=pid + "-proto", heap="6g")
+    out.add_tlc(res, "MC_Protocol/Protocol_q.cfg")
+    _expect_spec_violation(out, "MC_Protocol", "Protocol_local.cfg", "dictionary-attack resistance of locally derived randomness")
+    if res.ok:
+        if len(res.lines.get("PROTO", [])) < 100:
+            raise ToolError("MC_Protocol emitted too few behaviours")
+        wd = workdir(pid + "-proto-tbl")
+        lp = os.path.join(wd, "proto.ndjson")
+        write_ndjson(lp, res.lines["PROTO"])
+        out.add_vh(run_vh(["protocol-replay", "--lines", lp, "--stride", 1 if thorough else 5], timeout=3000), only={pid})
+
+
 @check("C11")
 def c11(tier, seed):
     out = Outcome("C11", tier, seed, "model_checking")
@@ -89,6 +103,7 @@ def c11(tier, seed):
     out.add_vh(run_vh(["ggm-export", "--seed", seed, "--runs", 16 if thorough else 6,
                        "--steps", 256 if thorough else 40]), only={"C11"})
     _ggm_trace(out, "C11", seed + 1, 8 if thorough else 3, 256 if thorough else 80)
+    _protocol_stage(out, "C11", thorough)
     return out
 
 
@@ -245,7 +260,7 @@ def c17(tier, seed):
                 "epochs) are executed through star_wasm::create_share / group_shares with UTF-8 valuations (incl. empty and "
                 "non-ASCII epochs); create_share output is compared with the core library; distinct = distinct inbox x valuation")
     out.assumptions = [STAR_ASSUME, "group_shares is called natively (rlib), not through a WASM runtime"]
-    _recover_family(out, "C17", ["Star_q_honest.cfg"] + (["Star_t_honest.cfg"] if thorough else []), seed, 8)
+    _recover_family(out, "C17", ["Star_q_honest.cfg"] + (["Star_t_honest.cfg"] if thorough else []), seed, 10)
     return out
 
 
@@ -507,6 +522,7 @@ def c13(tier, seed):
     lp = _oprf_cases(out, "C13-mc")
     out.add_vh(run_vh(["dleq-replay", "--lines", lp, "--seed", seed, "--bases", 10 if thorough else 3], timeout=3000), only={"C13"})
     out.add_vh(run_vh(["nonce-check", "--n", 1024 if thorough else 64], timeout=3000), only={"C13"})
+    out.add_vh(run_vh(["proof-complete", "--seed", seed, "--requests", 12 if thorough else 3], timeout=3000), only={"C13"})
     return out
 
 
@@ -539,7 +555,7 @@ def c18(tier, seed):
     out.rule = ("Aggregator.tla (collect in any arrival order -> filter -> worker pool taking any pending bucket at any time -> "
                 "join) is model-checked for every interleaving of 2-3 workers over 3-4 buckets with sizes around the threshold: "
                 "OutputCorrect, NeverTooMuch, NoLostBucket and termination under weak fairness; each model configuration is "
-                "scaled (x3 quick, x75 thorough = up to 300 groups) and executed on the real AggregationServer under rayon "
+                "scaled (x3 and x45 quick, x100 thorough = up to 400 groups / > 256 reports per call) and executed on the real AggregationServer under rayon "
                 "pools of 1,2,3,4,8,16 threads x 3 input permutations; outputs compared as a map measurement -> multiset of "
                 "associated data (absent == empty); distinct = (configuration, pool size, permutation)")
     out.assumptions = ["real rayon schedules are sampled (pool sizes x repetitions), not enumerated; the schedule quantifier is "
@@ -554,6 +570,8 @@ def c18(tier, seed):
     wd = workdir("C18-lines")
     lp = os.path.join(wd, "agg.ndjson")
     write_ndjson(lp, lines)
-    out.add_vh(run_vh(["agg-replay", "--lines", lp, "--seed", seed, "--scale", 75 if thorough else 3,
-                       "--perms", 3], timeout=3000), only={"C18"})
+    # small scale (a handful of reports) and large scale (hundreds of groups, > 256 reports per call)
+    out.add_vh(run_vh(["agg-replay", "--lines", lp, "--seed", seed, "--scale", 3, "--perms", 3], timeout=3000), only={"C18"})
+    out.add_vh(run_vh(["agg-replay", "--lines", lp, "--seed", seed + 1, "--scale", 100 if thorough else 45,
+                       "--perms", 4 if thorough else 3], timeout=3000), only={"C18"})
     return out
